@@ -746,6 +746,35 @@ def check_loads(ctx):
              ("nlp", so["null_functions"], "-", "logic_error"), ("nlp", so["plugin_exception"], "-", "runtime_error:c20-plugin-failure"),
              ("ocp", so["ocp_ok"], "-", "loaded"), ("ocp", so["ocp_version_mismatch"], "-", "invalid_abi_error"),
              ("ocp", so["ocp_missing_register"], "-", "dynamic_load_error"), ("ocp", nofile, "-", "dynamic_load_error"), ("ocp", "-", "-", "invalid_argument")]
+    # two plug-ins generated from one template (same non-static function names, different data) alive in one process
+    twin = {}
+    for k, coef in (("twin_a", 1), ("twin_b", 2)):
+        src = nlp_plugin_source(dict(base, name=k, mask=0))
+        src = src.replace("static real_t eval_f(void *i, const real_t *x) { return c20_eval_f(P_(i), x); }",
+                          "real_t problem_eval_f(void *i, const real_t *x) { return c20_eval_f(P_(i), x) + %d; }" % coef)
+        src = src.replace("static void eval_grad_f(void *i, const real_t *x, real_t *g) { c20_eval_grad_f(P_(i), x, g); }",
+                          "void problem_eval_grad_f(void *i, const real_t *x, real_t *g) { c20_eval_grad_f(P_(i), x, g); g[0] += %d; }" % coef)
+        src = src.replace("I->functions.eval_f = &eval_f;", "I->functions.eval_f = &problem_eval_f;").replace("I->functions.eval_grad_f = &eval_grad_f;", "I->functions.eval_grad_f = &problem_eval_grad_f;")
+        if "problem_eval_f" not in src or "&problem_eval_grad_f" not in src:
+            ctx.broke("correspondence", "plugin-template:twin", "could not rewrite the plug-in template"); return
+        twin[k] = compile_plugin(ctx, "load_" + k, src)
+        if twin[k] is None: return
+    line = "two %s %s %s" % (twin["twin_a"], twin["twin_b"], vec_in([0.5] * base["n"]))
+    rc, o, err = run_driver_isolated("C20", line + "\n")
+    ctx.count("load/two-plugins-alive")
+    rep = {"driver": "drv_C20", "input": line, "impl_output": o, "rc": rc}
+    if rc != 0 or not o or "load_exc" in o[0] or "exc" in o[0]:
+        ctx.violation("C20:load:two-plugins-alive:failed", "loading two plug-ins in one process failed: rc=%s %s" % (rc, o[0] if o else err[-200:]), rep)
+    else:
+        r = o[0]
+        ctx.case("load/two/%s" % ("distinct" if r["a_alone"] != r["b_alone"] else "same"))
+        bad = [k for k, ref in (("a_both", "a_alone"), ("b_both", "b_alone"), ("a_both_rev", "a_alone"), ("b_both_rev", "b_alone"), ("ga_both", "ga_alone"), ("gb_both", "gb_alone"))
+               if r[k] != r[ref]]
+        if r["a_alone"] == r["b_alone"]:
+            ctx.violation("C20:load:two-plugins-alive:vacuous", "the two plug-ins do not differ", rep)
+        if bad:
+            rep["why"] = "with both plug-ins loaded, %s differ from the values each plug-in gives when loaded alone: a plug-in's functions were replaced by the other's" % bad
+            ctx.violation("C20:load:two-plugins-alive:functions-of-the-other-plugin", rep["why"], rep)
     for which, path, fn, exp in tests:
         line = "load %s %s %s" % (which, path, fn)
         rc, o, err = run_driver_isolated("C20", line + "\n")
